@@ -16,7 +16,11 @@ RULE = ('Hypothesis draws a bootloader geometry (page size from {16,25,32,50,64,
         'late (reply delivered after the timeout, i.e. at the next receive)}. Sub "faults-exhaustive" enumerates ALL fault plans of length '
         '<= 4 (thorough: <= 6) over the first flash-writes of fixed images. The real Bootloader/Cloader run over a scripted link to a '
         'target model (page buffers, flash pages, range checks). Non-trivial = image length not a multiple of the page size with >= 2 '
-        'buffer flushes, an exact page/buffer multiple, an oversize image, or at least one injected fault.')
+        'buffer flushes, an exact page/buffer multiple, an oversize image, or at least one injected fault. Images are a byte pattern, optionally with '
+        'runs of 0x00 / 0xFF (padding) over a page buffer that starts non-zero. Sub "release-zip" runs the whole Bootloader.flash() of a generated '
+        'release zip (stm32 fw, nrf51 fw, nrf51 bootloader+softdevice in any combination, foreign-platform entries) on a two-target device '
+        'whose nRF51 start page follows the softdevice in flash after the restart in the middle; programmed pages must lie in the ranges '
+        'the images occupy at the start page the target reports at that time, and a completed flash leaves every firmware at that page.')
 ASSUMPTIONS = ['target model: load-buffer (0x14) writes bytes at page*page_size+address into the page buffer; flash-write (0x18) programs '
                '`count` buffer pages from buffer page 0 to consecutive flash pages; a late reply means the flash operation itself was executed',
                'receive timeouts are modelled as "nothing available" (the scripted link never blocks)']
@@ -126,7 +130,18 @@ def run_flash(case):
     geo = case['geo']
     ps, bp, fpg, sp = geo['page_size'], geo['buffer_pages'], geo['flash_pages'], geo['start_page']
     n = case['length']
-    image = bytes((i * 31 + 7 + (i >> 8)) & 0xff for i in range(n))
+    image = bytearray((i * 31 + 7 + (i >> 8)) & 0xff for i in range(n))
+    fill = case.get('fill')
+    if fill:      # runs of one value (zero padding, erased-flash 0xFF) as real firmware images have them
+        val, starts, runlen = fill[:3]
+        for a in starts:
+            a = a % n
+            image[a:min(n, a + runlen)] = bytes([val]) * (min(n, a + runlen) - a)
+        if fill[3]:
+            t = min(n, fill[3])
+            image[n - t:] = bytes([val]) * t
+        out.feat('image-with-%02x-runs' % val)
+    image = bytes(image)
     plan = list(case['plan'])
     start = case['override'] if case['override'] is not None else sp
     fits = n <= (fpg - start) * ps
@@ -277,7 +292,247 @@ def flash_case(draw):
     fpg = max(start + 1, start + need + slack)
     plan = draw(st.one_of(st.just([]), st.lists(st.sampled_from(_ACTIONS + ['ok'] * 4), max_size=14)))
     return {'geo': {'page_size': ps, 'buffer_pages': bp, 'flash_pages': fpg, 'start_page': sp}, 'target': draw(st.sampled_from(['stm32', 'nrf51'])),
-            'override': override, 'length': n, 'plan': plan, 'progress': draw(st.booleans())}
+            'override': override, 'length': n, 'plan': plan, 'progress': draw(st.booleans()),
+            'fill': draw(st.one_of(st.none(), st.tuples(st.sampled_from([0, 0, 0xFF]), st.lists(st.integers(0, 1 << 16), max_size=4),
+                                                         st.sampled_from([1, 24, 25, 26, 60, 200]), st.sampled_from([0, 1, 24, 25, 30, 100, 2000]))))}
+
+
+class _Clock:
+    """stands in for the `time` module inside the bootloader modules: waiting costs no real time"""
+
+    def __init__(self):
+        self.now = 1000.0
+
+    def time(self):
+        self.now += 0.01
+        return self.now
+
+    def sleep(self, d):
+        self.now += max(0.0, d)
+
+
+class _Device:
+    """A Crazyflie 2.x in bootloader mode: two targets behind one link, the nRF51 layout follows the softdevice that is in flash."""
+
+    def __init__(self, stm_geo, nrf_geo, nrf_version, blsd):
+        self.t = {0xFF: _Link(stm_geo, []), 0xFE: _Link(nrf_geo, [])}
+        self.rx = []
+        for l in self.t.values():
+            l.rx = self.rx
+        self.nrf_version = nrf_version
+        self.blsd = blsd            # None or {'image', 'start_page' (of the layout it brings), 'version'}
+        self.bad = []
+        self.resets = []
+        self.links = 0
+
+    def info(self, target):
+        g = self.t[target].geo
+        data = struct.pack('<BBHHHH', target, 0x10, g['page_size'], g['buffer_pages'], g['flash_pages'], g['start_page']) + bytes(range(12)) + bytes([0x10])
+        if target == 0xFE and self.nrf_version is not None:
+            data += struct.pack('<HBB', *self.nrf_version)
+        return data
+
+    def reboot(self):
+        # the bootloader that starts is the one in flash now
+        nrf = self.t[0xFE]
+        b = self.blsd
+        if b is not None:
+            ps = nrf.geo['page_size']
+            first = nrf.geo['flash_pages'] - len(b['image']) // ps
+            got = b''.join(nrf.flash.get(first + k, b'') for k in range(len(b['image']) // ps))
+            if got == b['image']:
+                nrf.geo['start_page'] = b['start_page']
+                self.nrf_version = b['version']
+                self.resets.append('new-bootloader')
+                return
+        self.resets.append('same-bootloader')
+
+
+class _DevLink:
+    def __init__(self, dev, uri='radio://0/0/2M/E7E7E7E7E7'):
+        self.dev = dev
+        self.uri = uri
+        self.closed = False
+        dev.links += 1
+
+    def scan_selected(self, uris):
+        return (uris[1],)
+
+    def send_packet(self, pk):
+        from cflib.crtp.crtpstack import CRTPPacket
+        d = self.dev
+        data = bytes(pk.data)
+        if self.closed:
+            d.bad.append('message %s on a closed link' % data[:2].hex())
+            return
+        if pk.header != 0xFF or len(data) > 31:
+            d.bad.append('message on header 0x%02x with %d bytes' % (pk.header, len(data)))
+        if len(data) < 2 or data[0] not in d.t:
+            return
+        target, cmd = data[0], data[1]
+        if cmd == 0x10:
+            d.rx.append(CRTPPacket(0xFF, list(d.info(target))))
+        elif cmd == 0xFF:
+            d.rx.append(CRTPPacket(0xFF, [target, 0xFF, 0x11, 0x22, 0x33, 0x44, 0x55]))
+        elif cmd == 0xF0:
+            del d.rx[:]
+            if len(data) > 2 and data[2] == 0:
+                d.reboot()
+            else:
+                d.resets.append('firmware')
+        else:
+            d.t[target].send_packet(pk)
+
+    def receive_packet(self, wait=0):
+        if self.closed:
+            return None
+        if self.dev.rx:
+            return self.dev.rx.pop(0)
+        return None
+
+    def close(self):
+        self.closed = True
+
+
+def _img(n, salt):
+    return bytes((i * 29 + salt * 53 + 11 + (i >> 7)) & 0xff for i in range(n))
+
+
+def run_release(case):
+    """Bootloader.flash() of a release zip on a two-target device, including the nRF51 bootloader+softdevice update with the restart
+    into the new bootloader in the middle."""
+    import json
+    import os
+    import tempfile
+    import zipfile
+    import cflib.bootloader as blmod
+    import cflib.bootloader.cloader as clmod
+    import cflib.crtp
+    out = Outcome()
+    stm_geo, nrf_geo = dict(case['stm']), dict(case['nrf'])
+    s_initial = nrf_geo['start_page']
+    files = {}
+    blobs = {}
+    arts = case['artifacts']
+    blsd = None
+    if 'blsd' in arts:
+        a = arts['blsd']
+        img = _img(a['pages'] * nrf_geo['page_size'], 3)
+        blobs['nrf51-blsd.bin'] = img
+        files['nrf51-blsd.bin'] = {'platform': 'cf2', 'target': 'nrf51', 'type': 'bootloader+softdevice', 'release': '%d.%d.%d' % tuple(a['release']),
+                                   'repository': 'x', 'provides': ['sd-' + a['sd']], 'requires': []}
+        blsd = {'image': img, 'start_page': 108 if a['sd'] == 's130' else 88, 'version': tuple(a['release'])}
+    if 'nrf' in arts:
+        blobs['nrf51-fw.bin'] = _img(arts['nrf']['length'], 5)
+        files['nrf51-fw.bin'] = {'platform': 'cf2', 'target': 'nrf51', 'type': 'fw', 'release': '2024.1', 'repository': 'x',
+                                 'provides': [], 'requires': ['sd-' + arts['nrf']['sd']]}
+    if 'stm' in arts:
+        blobs['stm32-fw.bin'] = _img(arts['stm']['length'], 7)
+        files['stm32-fw.bin'] = {'platform': 'cf2', 'target': 'stm32', 'type': 'fw', 'release': '2024.1', 'repository': 'x', 'provides': [], 'requires': []}
+    if case.get('foreign'):
+        blobs['other.bin'] = _img(300, 9)
+        files['other.bin'] = {'platform': case['foreign'], 'target': 'stm32' if case['foreign'] == 'cf1' else 'bcAI:gap8', 'type': 'fw', 'release': '1',
+                              'repository': 'x', 'provides': [], 'requires': []}
+    order = list(files)
+    if case.get('reverse'):
+        order.reverse()
+    dev = _Device(stm_geo, nrf_geo, tuple(case['nrf_version']) if case['nrf_version'] else None, blsd)
+    clock = _Clock()
+    tmp = tempfile.mkdtemp(prefix='verif-c12-')
+    zpath = os.path.join(tmp, 'release.zip')
+    with zipfile.ZipFile(zpath, 'w') as z:
+        z.writestr('manifest.json', json.dumps({'version': 2, 'files': {k: files[k] for k in order}}))
+        for k in order:
+            z.writestr(k, blobs[k])
+    saved = (blmod.time, clmod.time, cflib.crtp.get_link_driver)
+    blmod.time = clmod.time = clock
+    cflib.crtp.get_link_driver = lambda uri, *a, **k: _DevLink(dev, uri.split('?')[0])
+    desc = 'stm %r nrf %r version %r zip %r' % (case['stm'], case['nrf'], case['nrf_version'], {k: v for k, v in arts.items()})
+    raised = None
+    sink = io.StringIO()
+    try:
+        bl = blmod.Bootloader(None)
+        if case.get('progress'):
+            bl.progress_cb = lambda *a, **k: None
+        with contextlib.redirect_stdout(sink):
+            if not bl.start_bootloader(warm_boot=False):
+                out.fail('flash:info', 'bootloader not found on the scripted link')
+                return out
+            try:
+                bl.flash(zpath, [])
+            except Exception as e:  # noqa
+                raised = e
+    finally:
+        blmod.time, clmod.time, cflib.crtp.get_link_driver = saved
+        import shutil
+        shutil.rmtree(tmp, ignore_errors=True)
+    stm, nrf = dev.t[0xFF], dev.t[0xFE]
+    s_final = nrf.geo['start_page']
+    out.feat('zip-' + '+'.join(sorted(arts)), 'sd-%d-to-%d' % (s_initial, s_final), 'raised' if raised else 'completed',
+             *(['restart-into-' + r for r in dev.resets]))
+    for b in dev.bad + stm.bad + nrf.bad:
+        out.fail('flash:message:' + b.split(' ')[0], '%s: %s' % (desc, b))
+    # pages that may be programmed at all
+    allowed = {0xFF: set(), 0xFE: set()}
+    if 'stm' in arts:
+        n = arts['stm']['length']
+        allowed[0xFF] |= set(range(stm.geo['start_page'], stm.geo['start_page'] + (n + stm.geo['page_size'] - 1) // stm.geo['page_size']))
+    nps = nrf.geo['page_size']
+    if 'nrf' in arts:
+        n = arts['nrf']['length']
+        # before the restart into another bootloader nothing of the firmware may be written, after it the new start page counts
+        allowed[0xFE] |= set(range(s_final, s_final + (n + nps - 1) // nps))
+    if blsd is not None:
+        allowed[0xFE] |= set(range(nrf.geo['flash_pages'] - len(blsd['image']) // nps, nrf.geo['flash_pages']))
+        allowed[0xFE].add(s_initial)     # first firmware page erased so that the old firmware is not started half-overwritten
+    for tid, l in ((0xFF, stm), (0xFE, nrf)):
+        for pg in sorted(l.flash):
+            if pg not in allowed[tid] or pg >= l.geo['flash_pages']:
+                out.fail('flash:page-range', '%s: page %d of target %02x programmed, allowed %r (start page now %d); flash-writes %r' % (
+                    desc, pg, tid, sorted(allowed[tid])[:40], l.geo['start_page'], l.flash_cmds[:12]))
+                break
+    if raised is None:
+        for key, tid, l in (('stm', 0xFF, stm), ('nrf', 0xFE, nrf)):
+            if key not in arts:
+                continue
+            image = blobs['stm32-fw.bin' if key == 'stm' else 'nrf51-fw.bin']
+            ps = l.geo['page_size']
+            sp = l.geo['start_page']
+            got = b''.join(l.flash.get(sp + k, b'\x00' * ps) for k in range((len(image) + ps - 1) // ps))
+            if got[:len(image)] != image:
+                first = next(i for i in range(len(image)) if got[i:i + 1] != image[i:i + 1])
+                out.fail('flash:content', '%s: %s firmware not at the start page %d the target reports: differs at byte %d; flash-writes %r' % (
+                    desc, key, sp, first, l.flash_cmds[:12]))
+    out.nontrivial = bool(dev.resets) or len(arts) >= 2
+    return out
+
+
+@st.composite
+def release_case(draw):
+    nps = draw(st.sampled_from([64, 256, 1024]))
+    sps = draw(st.sampled_from([64, 256, 1024]))
+    arts = {}
+    which = draw(st.sampled_from([('blsd', 'nrf', 'stm'), ('blsd', 'nrf', 'stm'), ('blsd', 'nrf'), ('nrf', 'stm'), ('blsd',), ('blsd', 'stm'), ('nrf',), ('stm',)]))
+    cur_sd = draw(st.sampled_from(['s110', 's130']))
+    if 'blsd' in which:
+        arts['blsd'] = {'pages': draw(st.integers(1, 4)), 'sd': draw(st.sampled_from(['s110', 's130', 's130'])),
+                        'release': [draw(st.sampled_from([1, 2, 2023])), draw(st.integers(0, 3)), draw(st.integers(0, 3))]}
+    if 'nrf' in which:
+        arts['nrf'] = {'length': draw(st.one_of(st.integers(1, 4 * nps), st.sampled_from([nps, 2 * nps, 3 * nps, nps + 25, 2 * nps + 1]))),
+                       'sd': draw(st.sampled_from(['s130', 's130', arts['blsd']['sd'] if 'blsd' in arts else cur_sd, 's110']))}
+    sbp = draw(st.integers(1, 6))
+    if 'stm' in which:
+        arts['stm'] = {'length': draw(st.one_of(st.integers(1, 3 * sps * sbp), st.sampled_from([sps, sps * sbp, 2 * sps * sbp, sps * sbp + 1])))}
+    nrf_pages = 108 + 4 + 4 + draw(st.integers(0, 6))
+    ssp = draw(st.integers(0, 16))
+    stm_pages = ssp + (arts.get('stm', {'length': 1})['length'] + sps - 1) // sps + draw(st.integers(0, 3))
+    ver = draw(st.one_of(st.none(), st.tuples(st.sampled_from([1, 2, 2023]), st.integers(0, 3), st.integers(0, 3))))
+    if ver is None and 'blsd' in arts and draw(st.booleans()):
+        ver = tuple(arts['blsd']['release'])
+    return {'stm': {'page_size': sps, 'buffer_pages': sbp, 'flash_pages': stm_pages, 'start_page': ssp},
+            'nrf': {'page_size': nps, 'buffer_pages': draw(st.integers(1, 3)), 'flash_pages': nrf_pages, 'start_page': 88 if cur_sd == 's110' else 108},
+            'nrf_version': list(ver) if ver else None, 'artifacts': arts, 'foreign': draw(st.sampled_from([None, None, 'cf1', 'deck'])),
+            'reverse': draw(st.booleans()), 'progress': draw(st.booleans())}
 
 
 def fault_cases(tier):
@@ -295,4 +550,5 @@ def subchecks(tier):
     return [
         Sub('flash', run_flash, strategy=flash_case(), examples={'quick': 1200, 'thorough': 60000}),
         Sub('faults-exhaustive', run_flash, cases=fault_cases, distinct_by_construction=True),
+        Sub('release-zip', run_release, strategy=release_case(), examples={'quick': 150, 'thorough': 6000}),
     ]
